@@ -21,6 +21,9 @@ func unhex(s string) ([]byte, bool) {
 	if s == "-" {
 		return nil, true
 	}
+	if s == "=" {
+		return []byte{}, true // empty but not nil
+	}
 	b, err := hex.DecodeString(s)
 	return b, err == nil
 }
